@@ -66,6 +66,11 @@ var c42Pkgs = []string{
 }
 
 func runC42(c *core.Ctx) {
+	// a threshold bounds a count of DISTINCT validators: the counting rules of the two vote tallies (C25) are
+	// necessary conditions of the quorum-intersection claim too and are decided here under their C25 names
+	for _, sp := range []voteSpec{{pkVote, "CheckVotes", "VoteInfo", "getVoteInfo", "putVoteInfo"}, {pkSigM, "CheckSigns", "SigInfo", "getSigInfo", "putSigInfo"}} {
+		checkVoteFunc(c, sp)
+	}
 	nSites := 0
 	seenFn := map[string]bool{}
 	leafKinds := map[string]int{}
